@@ -250,11 +250,11 @@ Definition build (ch : child) (l : list obj) : obj :=
   | ChSet _ _ => OSet l | ChFset _ _ => OFset l | _ => ONone
   end.
 
-(* ---- text that has no UTF-8 form.  A Python str may hold lone surrogates (U+D800..U+DFFF: os.fsdecode / surrogateescape
-   produce them); str.encode("UTF-8") raises UnicodeEncodeError exactly on those, and bytes.decode("UTF-8") refuses their
-   three-byte forms (utf8_valid below is that decoder; SchemaProofs.utf8_encode_valid relates the two).  In a wire tree
-   the payload of a STRING token inside OPEN unicode is written as the code points it stands for; a code point that is
-   not encodable stands for the bytes a LENIENT encoder ("surrogatepass") would have put there. *)
+(* ---- text.  A Python str may hold lone surrogates (U+D800..U+DFFF: os.fsdecode / surrogateescape produce them);
+   str.encode("UTF-8") raises UnicodeEncodeError exactly on those, and bytes.decode("UTF-8") refuses their three-byte forms
+   (utf8_valid below is that decoder; SchemaProofs.utf8_encode_valid_iff relates the two).  In a wire tree the payload of
+   the STRING token inside OPEN unicode is the BODY BYTES, like that of every other STRING token: a peer can put any bytes
+   there, and UnicodeUnslicer.receiveChild decodes them (recv_text). *)
 Definition cp_encodable (cp : Z) : bool :=
   (0 <=? cp) && (cp <=? 1114111) && negb ((55296 <=? cp) && (cp <=? 57343)).
 Definition text_encodable (cps : list Z) : bool := forallb cp_encodable cps.
@@ -267,23 +267,106 @@ Fixpoint encodable (o : obj) : bool :=
   | _ => true
   end.
 
+(* length of the UTF-8 form of a text (Python's str.encode("UTF-8")) *)
+Definition utf8len (cp : Z) : Z := if cp <? 128 then 1 else if cp <? 2048 then 2 else if cp <? 65536 then 3 else 4.
+Definition utf8size (cps : list Z) : Z := fold_right (fun cp n => utf8len cp + n) 0 cps.
+(* the bytes themselves (the generic forms; for a lone surrogate this is what errors="surrogatepass" emits) *)
+Definition utf8_encode_cp (cp : Z) : list Z :=
+  if cp <? 128 then [cp]
+  else if cp <? 2048 then [192 + cp / 64; 128 + cp mod 64]
+  else if cp <? 65536 then [224 + cp / 4096; 128 + (cp / 64) mod 64; 128 + cp mod 64]
+  else [240 + cp / 262144; 128 + (cp / 4096) mod 64; 128 + (cp / 64) mod 64; 128 + cp mod 64].
+Definition utf8_encode (cps : list Z) : list Z := flat_map utf8_encode_cp cps.
+
+(* is this byte string text?  Exactly the byte strings Python's strict UTF-8 decoder accepts (RFC 3629: no overlong forms,
+   no surrogates, nothing above U+10FFFF): six.ensure_str(token) / bytes.decode("UTF-8") raise UnicodeDecodeError on the
+   others.  sp = true is the lenient errors="surrogatepass" decoder, which also takes ED A0..BF xx (U+D800..U+DFFF). *)
+Definition u8cont (b : Z) : bool := (128 <=? b) && (b <=? 191).
+Fixpoint utf8_valid (l : list Z) : bool :=
+  match l with
+  | [] => true
+  | b :: r =>
+      if (0 <=? b) && (b <? 128) then utf8_valid r
+      else if (194 <=? b) && (b <=? 223) then
+        match r with c1 :: r1 => u8cont c1 && utf8_valid r1 | _ => false end
+      else if (224 <=? b) && (b <=? 239) then
+        match r with
+        | c1 :: c2 :: r2 =>
+            (if b =? 224 then (160 <=? c1) && (c1 <=? 191) else if b =? 237 then (128 <=? c1) && (c1 <=? 159) else u8cont c1)
+            && u8cont c2 && utf8_valid r2
+        | _ => false
+        end
+      else if (240 <=? b) && (b <=? 244) then
+        match r with
+        | c1 :: c2 :: c3 :: r3 =>
+            (if b =? 240 then (144 <=? c1) && (c1 <=? 191) else if b =? 244 then (128 <=? c1) && (c1 <=? 143) else u8cont c1)
+            && u8cont c2 && u8cont c3 && utf8_valid r3
+        | _ => false
+        end
+      else false
+  end.
+Fixpoint utf8_valid_sp (l : list Z) : bool :=
+  match l with
+  | [] => true
+  | b :: r =>
+      if (0 <=? b) && (b <? 128) then utf8_valid_sp r
+      else if (194 <=? b) && (b <=? 223) then
+        match r with c1 :: r1 => u8cont c1 && utf8_valid_sp r1 | _ => false end
+      else if (224 <=? b) && (b <=? 239) then
+        match r with
+        | c1 :: c2 :: r2 => (if b =? 224 then (160 <=? c1) && (c1 <=? 191) else u8cont c1) && u8cont c2 && utf8_valid_sp r2
+        | _ => false
+        end
+      else if (240 <=? b) && (b <=? 244) then
+        match r with
+        | c1 :: c2 :: c3 :: r3 =>
+            (if b =? 240 then (144 <=? c1) && (c1 <=? 191) else if b =? 244 then (128 <=? c1) && (c1 <=? 143) else u8cont c1)
+            && u8cont c2 && u8cont c3 && utf8_valid_sp r3
+        | _ => false
+        end
+      else false
+  end.
+
+(* the text a byte string that passed utf8_valid / utf8_valid_sp stands for (bytes.decode("UTF-8")); on other input the
+   value is irrelevant (recv_text tests first).  SchemaProofs.utf8_decode_encode: it inverts utf8_encode *)
+Fixpoint utf8_decode (l : list Z) : list Z :=
+  match l with
+  | [] => []
+  | b :: r =>
+      if b <? 128 then b :: utf8_decode r
+      else if b <? 224 then
+        match r with c1 :: r1 => ((b - 192) * 64 + (c1 - 128)) :: utf8_decode r1 | _ => [] end
+      else if b <? 240 then
+        match r with c1 :: c2 :: r2 => ((b - 224) * 4096 + (c1 - 128) * 64 + (c2 - 128)) :: utf8_decode r2 | _ => [] end
+      else
+        match r with
+        | c1 :: c2 :: c3 :: r3 => ((b - 240) * 262144 + (c1 - 128) * 4096 + (c2 - 128) * 64 + (c3 - 128)) :: utf8_decode r3
+        | _ => []
+        end
+  end.
+
 (* leaf unslicers *)
 (* UnicodeUnslicer.checkToken: a STRING body of more than factor*maxLength bytes cannot hold <= maxLength characters *)
 Definition text_body_too_long (mx : option Z) (vocab : bool) (size : Z) : bool :=
   unicode_unslicer_checks_size && negb vocab &&
   match mx with None => false | Some m => scmp_eval unicode_size_cmp size (unicode_size_factor * m) end.
 
+(* obj.decode("UTF-8"[, "surrogatepass"]) does not raise *)
+Definition body_decodable (bs : list Z) : bool :=
+  if unicode_unslicer_strict_decode then utf8_valid bs else utf8_valid_sp bs.
+
 Definition recv_text (mx : option Z) (kids : list wobj) : rv :=
   match kids with
   | [] => RDeliver ONone                                   (* receiveClose returns self.string = None *)
   | WStr vocab size bs :: rest =>
       if text_body_too_long mx vocab size then RViol
-      else if unicode_unslicer_strict_decode && negb (text_encodable bs) then
-        (* receiveChild: self.string = obj.decode("UTF-8") raises UnicodeDecodeError, which is neither Violation nor
-           BananaError: it escapes dataReceived and the connection is lost (unless it is turned into a Violation) *)
+      else if negb (body_decodable bs) then
+        (* receiveChild: self.string = obj.decode("UTF-8") raises UnicodeDecodeError on ANY body that is not UTF-8 (a stray
+           continuation byte, an overlong form, a surrogate, 0xFF ..).  That is neither Violation nor BananaError: unless
+           the unslicer turns it into a Violation (read from the source) it escapes dataReceived: connection lost *)
         (if unicode_unslicer_undecodable_violation then RViol else RAbort)
       else match rest with
-           | [] => RDeliver (OText bs)                     (* bs: the code points the UTF-8 body decodes to *)
+           | [] => RDeliver (OText (utf8_decode bs))       (* the text the body stands for *)
            | _ => RAbort                                   (* BananaError: already received a string / not a string *)
            end
   | _ => RAbort                                            (* BananaError: UnicodeUnslicer only accepts strings *)
@@ -316,14 +399,26 @@ Definition kids_with (f : option ctr -> wobj -> rv) (ch : child) : list wobj -> 
         end
     end.
 
-(* referenceable.ReferenceUnslicer: clid (INT/NEG), optional interface name, optional url (ByteStringConstraint() each) *)
+(* referenceable.ReferenceUnslicer: clid (INT/NEG), optional interface name, optional url (ByteStringConstraint() each).
+   receiveChild: self.interfaceName = six.ensure_str(obj) or None / self.url = six.ensure_str(obj): a name or URL that is
+   not UTF-8 raises UnicodeDecodeError -- a Violation when the statement is guarded, otherwise it escapes dataReceived
+   (connection lost); which one is read from the source (myref_nontext_*_violation).
+   A URL that IS text is parsed by RemoteReferenceTracker.__init__ (SturdyRef(url)) and its tubid compared with the
+   connection's peer: a foreign tubid is a BananaError by design (the identity check of C05), a text that is no FURL at
+   all escapes as ValueError / BadFURLError -- connection lost in both cases; only the FURL the sending Tub itself
+   publishes is accepted.  This model has no Tub identities: it answers "connection lost" for EVERY text URL (the
+   conservative side: no theorem of C02 / C12 claims delivery of a URL-carrying reference; slice sends none). *)
 Definition recv_myref (kids : list wobj) : rv :=
   match kids with
   | [WInt tb _ _] => if (tb =? tok_INT) || (tb =? tok_NEG) then RDeliver (ORemote []) else RAbort
   | WInt tb _ _ :: WStr _ _ name :: rest =>
       if negb ((tb =? tok_INT) || (tb =? tok_NEG)) then RAbort
+      else if negb (utf8_valid name) then (if myref_nontext_name_violation then RViol else RAbort)
       else match rest with
-           | [] | [WStr _ _ _] => RDeliver (ORemote name)
+           | [] => RDeliver (ORemote name)
+           | [WStr _ _ url] =>
+               if negb (utf8_valid url) then (if myref_nontext_url_violation then RViol else RAbort)
+               else RAbort                                   (* not modelled: see above *)
            | _ => RViol
            end
   | _ => RAbort
@@ -381,17 +476,6 @@ Definition recv_kids : child -> list wobj -> nat -> krv := kids_with recvw.
 Fixpoint interleave {A} (a b : list A) : list A :=
   match a, b with x :: a', y :: b' => x :: y :: interleave a' b' | _, _ => [] end.
 
-(* length of the UTF-8 form of a text (Python's str.encode("UTF-8")) *)
-Definition utf8len (cp : Z) : Z := if cp <? 128 then 1 else if cp <? 2048 then 2 else if cp <? 65536 then 3 else 4.
-Definition utf8size (cps : list Z) : Z := fold_right (fun cp n => utf8len cp + n) 0 cps.
-(* the bytes themselves (the generic forms; for a lone surrogate this is what errors="surrogatepass" emits) *)
-Definition utf8_encode_cp (cp : Z) : list Z :=
-  if cp <? 128 then [cp]
-  else if cp <? 2048 then [192 + cp / 64; 128 + cp mod 64]
-  else if cp <? 65536 then [224 + cp / 4096; 128 + (cp / 64) mod 64; 128 + cp mod 64]
-  else [240 + cp / 262144; 128 + (cp / 4096) mod 64; 128 + (cp / 64) mod 64; 128 + cp mod 64].
-Definition utf8_encode (cps : list Z) : list Z := flat_map utf8_encode_cp cps.
-
 (* the connection's vocabulary (the negotiated initial table, in index order): a byte string equal to one of its
    words travels as a VOCAB token whose header is the word's INDEX *)
 Fixpoint vocab_index_from (i : Z) (voc : list (list Z)) (bs : list Z) : option Z :=
@@ -406,7 +490,7 @@ Fixpoint slice (voc : list (list Z)) (o : obj) : wobj :=
   | OInt z => let '(tb, size) := int_token z in WInt tb size z
   | OFloat b => WFloat b
   | OBytes bs => str_token voc (zlen bs) bs
-  | OText cps => WOpen OtUnicode [str_token voc (utf8size cps) cps]   (* UnicodeSlicer yields the UTF-8 bytes to sendToken *)
+  | OText cps => WOpen OtUnicode [str_token voc (utf8size cps) (utf8_encode cps)]   (* UnicodeSlicer yields the UTF-8 bytes to sendToken *)
   | OBool b => WOpen OtBool [WInt tok_INT (if b then 1 else 0) (if b then 1 else 0)]
   | ONone => WOpen OtNone []
   | OList l => WOpen OtList (map (slice voc) l)
@@ -540,33 +624,6 @@ Inductive austep := AuGo (st : austate) | AuViol | AuAbort.
 
 (* a keyword name as the model's identifier: the bytes of the STRING / VOCAB token, base 256 behind a leading 1 (injective) *)
 Definition name_code (bs : list Z) : Z := fold_left (fun acc b => acc * 256 + b) bs 1.
-
-(* is this byte string text?  Exactly the byte strings Python's strict UTF-8 decoder accepts (RFC 3629: no overlong forms,
-   no surrogates, nothing above U+10FFFF): six.ensure_str(token) raises UnicodeDecodeError on the others *)
-Definition u8cont (b : Z) : bool := (128 <=? b) && (b <=? 191).
-Fixpoint utf8_valid (l : list Z) : bool :=
-  match l with
-  | [] => true
-  | b :: r =>
-      if (0 <=? b) && (b <? 128) then utf8_valid r
-      else if (194 <=? b) && (b <=? 223) then
-        match r with c1 :: r1 => u8cont c1 && utf8_valid r1 | _ => false end
-      else if (224 <=? b) && (b <=? 239) then
-        match r with
-        | c1 :: c2 :: r2 =>
-            (if b =? 224 then (160 <=? c1) && (c1 <=? 191) else if b =? 237 then (128 <=? c1) && (c1 <=? 159) else u8cont c1)
-            && u8cont c2 && utf8_valid r2
-        | _ => false
-        end
-      else if (240 <=? b) && (b <=? 244) then
-        match r with
-        | c1 :: c2 :: c3 :: r3 =>
-            (if b =? 240 then (144 <=? c1) && (c1 <=? 191) else if b =? 244 then (128 <=? c1) && (c1 <=? 143) else u8cont c1)
-            && u8cont c2 && u8cont c3 && utf8_valid r3
-        | _ => false
-        end
-      else false
-  end.
 
 (* accept, self.argConstraint = ms.getXArgConstraint(..); assert accept *)
 Definition au_take (g : gac) (k : option ctr -> austate) : austep :=
@@ -868,7 +925,12 @@ Definition getAttrConstraint (s : attrschema) (n : Z) : gac :=
 
 Inductive arv := ADeliver (state : list (Z * obj)) | AViol | AAbort.
 
-(* what AttributeDictConstraint.checkObject says about a state (acceptUnknown is not consulted there) *)
+(* what AttributeDictConstraint.checkObject says about a state (acceptUnknown is not consulted there).
+   STRICTER than the code for Optional attributes: the code checks obj[k] against self.keys[k], which for an Optional
+   attribute is the Optional wrapper itself (it accepts anything); here the value is checked against the constraint the
+   Optional wraps (a_ctr).  attr_state_ok is used only in the `_refuted` witnesses of C02_remotecopy_state_refuted (none
+   of which gives an Optional attribute a non-conforming value) and, through rc_close, under rc_close_checks_state, which
+   is false on the current tree. *)
 Definition attr_state_ok (s : attrschema) (d : list (Z * obj)) : bool :=
   forallb (fun nv => match lookup (fst nv) (as_keys s) with
                      | Some a => checkObject (a_ctr a) (snd nv)
@@ -947,6 +1009,19 @@ Definition send_call (voc : list (list Z)) (ms : mschema) (args : list obj) (kwa
             else None                                  (* refused locally while serializing *)
   | Exc _ => None
   end.
+
+(* the sender in full generality.  Within ONE call a list / tuple / set / dict object that occurs again is sent as OPEN
+   reference (ArgumentSlicer is a ScopedSlicer and these slicers track references): for m(l, l) the second argument
+   travels as a reference to the first, and a container shared between members of two arguments likewise.  So the wire
+   trees of a call are SOME serialization (ser) of its arguments, not necessarily the tree one (send_call above is the
+   special case without repeats).  ser lets ANY occurrence of a refable object be a reference: a superset of what a
+   sender emits. *)
+Definition sent_call (voc : list (list Z)) (ms : mschema) (args : list obj) (kwargs : list (Z * obj))
+                     (p : list wobj) (k : list (Z * wobj)) : Prop :=
+  checkAllArgs ms args kwargs = Ok tt /\
+  forallb sendable args && forallb (fun nv => sendable (snd nv)) kwargs = true /\
+  Forall2 (ser voc) args p /\
+  Forall2 (fun (nv : Z * obj) (nw : Z * wobj) => fst nv = fst nw /\ ser voc (snd nv) (snd nw)) kwargs k.
 
 (* ---- well-formed constraints (what the constructors' own assertions allow) *)
 Definition mb_wf (mb : option Z) (allow32 : bool) : bool :=
